@@ -31,14 +31,14 @@ STEP = [
     K('votes::two_mints_one_ledger', functions=UNITS + [V + 'get_total_supply', V + 'get_votes'], bounds=TAIL + '; history: two mints inside one ledger'),
     K('votes::mint_then_burn_one_ledger', tier='thorough', functions=UNITS + [V + 'get_total_supply', V + 'get_votes'], bounds=TAIL + '; history: mint then burn inside one ledger'),
     K('votes::current_getters', functions=[V + 'get_votes', V + 'num_checkpoints', V + 'get_total_supply', V + 'get_delegate', V + 'get_voting_units'], bounds=TAIL),
-    K('votes::delegate_accepted', tier='thorough', must_succeed=True, functions=[V + 'delegate'] + MOVE,
+    K('votes::delegate_accepted', must_succeed=True, functions=[V + 'delegate'] + MOVE,
       bounds=TAIL + '; ledger and max TTL <= u32::MAX/2, timelines shorter than u32::MAX, no u128 overflow of the gaining delegate'),
 ]
 LOOKUP = [
     K('votes::lookup_votes_4', functions=LOOK, bounds=CONC % 4),
     K('votes::lookup_total_4', functions=LOOK, bounds=CONC % 4),
     K('votes::lookup_votes_4_answered', must_succeed=True, functions=LOOK, bounds=CONC % 4 + '; query ledger < sequence <= u32::MAX/2, max TTL <= u32::MAX/2'),
-    K('votes::lookup_total_4_answered', must_succeed=True, functions=LOOK, bounds=CONC % 4 + '; query ledger < sequence <= u32::MAX/2, max TTL <= u32::MAX/2'),
+    K('votes::lookup_total_4_answered', tier='thorough', must_succeed=True, functions=LOOK, bounds=CONC % 4 + '; query ledger < sequence <= u32::MAX/2, max TTL <= u32::MAX/2'),
     K('votes::lookup_votes_8', tier='thorough', functions=LOOK, bounds=CONC % 8),
     K('votes::lookup_total_8', tier='thorough', functions=LOOK, bounds=CONC % 8),
 ]
@@ -63,6 +63,13 @@ def _nv(name, fn, deleg):
     return K('votes::' + name, functions=NB + ['non_fungible::votes::NonFungibleVotes::' + fn] + UNITS, bounds=WRAP_N % (DELEG if deleg else NODELEG), **kw)
 
 
+EXF = ['examples/fungible-votes ExampleContract::%s', 'fungible::FungibleToken::%s (ContractType = FungibleVotes)']
+EX = [
+    K('votes::ex_transfer', functions=FB + [x % 'transfer' for x in EXF] + ['fungible::votes::FungibleVotes::transfer'] + UNITS, bounds=WRAP_F % NODELEG),
+    K('votes::ex_transfer_from', tier='thorough', functions=FB + [x % 'transfer_from' for x in EXF] + ['fungible::votes::FungibleVotes::transfer_from'] + UNITS, bounds=WRAP_F % NODELEG),
+    K('votes::ex_mint', functions=FB + ['examples/fungible-votes ExampleContract::mint', 'ownable::enforce_owner_auth', 'fungible::votes::FungibleVotes::mint'] + UNITS,
+      bounds=WRAP_F % NODELEG + '; Owner entry absent / any of 4'),
+]
 FV_OPS = ['transfer', 'transfer_from', 'mint', 'burn', 'burn_from']
 FV = [_fv('fv_' + f, f, False) for f in FV_OPS] + [_fv('fv_deleg_' + f, f, True) for f in FV_OPS]
 NV = [_nv('nv_' + f, f, False) for f in ['transfer', 'transfer_from', 'mint', 'sequential_mint', 'burn', 'burn_from']] + \
@@ -70,7 +77,7 @@ NV = [_nv('nv_' + f, f, False) for f in ['transfer', 'transfer_from', 'mint', 's
 
 CHECKS = {
     'C13': {
-        'kani': STEP + LOOKUP + PAST + FV + NV,
+        'kani': STEP + LOOKUP + PAST + FV + NV + EX,
         'bounds': TAIL + ' | lookups / past-immutability: ' + (CONC % 4) + ' (thorough: 8) | token wrappers: ' + (WRAP_F % NODELEG) + ' (thorough: ' + DELEG + ')',
         'outside_claim': 'binary search over timelines longer than 8 checkpoints (the step harnesses cover pushes on timelines of any length; the lookup '
                          'is checked against the linear definition up to length 8); more than two delegates / four accounts involved in one call (no entry '
@@ -86,11 +93,11 @@ CHECKS = {
         ],
     },
     'C01': {
-        'kani': [_fv('fv_' + f, f, False) for f in FV_OPS],
+        'kani': [_fv('fv_' + f, f, False) for f in FV_OPS] + EX,
         'bounds': 'FungibleVotes flavour: ' + (WRAP_F % NODELEG),
     },
     'C02': {
-        'kani': [_fv('fv_' + f, f, False) for f in FV_OPS],
+        'kani': [_fv('fv_' + f, f, False) for f in FV_OPS] + EX,
         'bounds': 'FungibleVotes flavour: ' + (WRAP_F % NODELEG),
     },
 }
